@@ -279,6 +279,14 @@ def main(argv):
         [("set", ("k", b"x"), {"noreply": False}), ("decr", ("k", 1), {}), ("decr", ("k", 1), {}), ("delete", ("k",), {"noreply": False}), ("get", ("k",), {}), ("add", ("k", b"7"), {"noreply": False}),
          ("incr", ("k", 3), {})],
         [("cas", ("k", b"v", b"notanumber"), {}), ("set", ("k", b"v"), {"noreply": False}), ("gets", ("k",), {}), ("get_many", (["k", "z"],), {})],
+        # a multi-key fetch that is refused half-way through its key list, then further multi-key fetches on the same object: they ask for their own keys only
+        [("set", ("a", b"1"), {"noreply": False}), ("set", ("c", b"3"), {"noreply": False}), ("get_many", (["a", "not a key", "b"],), {}), ("get_many", (["c"],), {}),
+         ("gets_many", (["c", "zz"],), {}), ("gets_many", (["a", "bad\nkey"],), {}), ("get_many", (["zz"],), {}), ("get_many", (["a", "c"],), {})],
+        # delete_many whose LATER key is illegal: a plain Client refuses the call before anything is sent (HashClient deletes key by key: open finding C16-hash-delete_many-partial)
+        [("set", ("a", b"1"), {"noreply": False}), ("set", ("c", b"3"), {"noreply": False}), ("delete_many", (["a", "no t"],), {"noreply": False}), ("get_many", (["a", "c"],), {})],
+        # keys with control characters other than white space and NUL are ordinary keys for every stack
+        [("set", (b"row\x01id", b"v"), {"noreply": False}), ("get", (b"row\x01id",), {}), ("set", ("tab\x1bsep", b"w"), {"noreply": False}), ("get_many", ([b"del\x7fkey", "tab\x1bsep"],), {}),
+         ("incr", (b"n\x02", 1), {}), ("delete", (b"row\x01id",), {"noreply": False}), ("gets", ("tab\x1bsep",), {}), ("touch", (b"\x08\x0e\x1f", 5), {"noreply": False})],
         [("set", ("k", b""), {"noreply": False}), ("__getitem__", ("k",), {}), ("__setitem__", ("j", b"0"), {}), ("__getitem__", ("j",), {}), ("__delitem__", ("j",), {}), ("__getitem__", ("j",), {})],
     ]
     # with a serializer a stored value may legitimately be None, 0, '' or an empty container: a hit, not a miss
@@ -319,7 +327,8 @@ def main(argv):
                     k = next((i for i, (a, b) in enumerate(zip(outcome[0], ref[0])) if a != b), None)
                     ctx.violation(f"{sname} behaves differently from a plain Client in a sequence of calls on one object",
                                   dict(case, first_difference_at=k, client=ref[0], stack=outcome[0], client_commands=len(ref[1]), stack_commands=len(outcome[1])),
-                                  tags=["stack:" + sname, "history"])
+                                  tags=["stack:" + sname, "history"] + (["delete_many-illegal-later-key"] if sname.startswith("HashClient") and any(
+                                      op_ == "delete_many" and "no t" in a_[0] for op_, a_, _ in hist) else []))
     ctx.assumptions = ["RetryingClient: 'same commands' = every attempt's bytes equal the plain client's (the number of attempts is C17's subject)",
                        "single-server HashClient (multi-server routing is C12)"]
     ctx.finish()
